@@ -905,3 +905,27 @@ def split_ite(v, limit=16):
         if not changed:
             break
     return out
+
+
+def strip_floor_clamps(v):
+    """max(X, 0) / max(0, X) -> X at any depth: a clamp at zero of a quantity that is non-negative in exact arithmetic (an eigenvalue of a
+    positive semi-definite matrix) is the identity of the exact model; it exists for the sake of rounding.  The caller states why X >= 0."""
+    if isinstance(v, Tup):
+        return Tup([strip_floor_clamps(x) for x in v.items], v.is_list)
+    if isinstance(v, IteV):
+        return IteV(v.cond, strip_floor_clamps(v.a), strip_floor_clamps(v.b))
+    if not isinstance(v, Rat):
+        return v
+
+    def f(at):
+        if at.kind == 'fn' and at.name == 'max' and len(at.args) == 2 and all(isinstance(x, Rat) for x in at.args):
+            a, b = at.args
+            if b.is_zero():
+                return a
+            if a.is_zero():
+                return b
+        return None
+    try:
+        return alg.map_atoms(v, f)
+    except RecursionError:
+        return v
